@@ -1,1 +1,26 @@
 import Martian.Props.C12
+open Martian.Props.C12
+#print axioms compile_eval_eq_spec
+#print axioms multierror_never_empty
+#print axioms priority_insert_sorted
+#print axioms priority_order_characterised
+#print axioms priority_order_unique
+#print axioms priority_insert_position
+#print axioms scope_projection
+#print axioms out_of_scope_untouched
+#print axioms spec_out_of_scope
+#print axioms first_error_stops
+#print axioms first_error_stops_priority
+#print axioms no_error_runs_all
+#print axioms aggregate_runs_all_reports_each_once
+#print axioms accept_iff_valid
+#print axioms reject_whole
+#print axioms reject_iff_bad_node_anywhere
+#print axioms bad_child_rejects_parent
+#print axioms reconfig_atomic
+#print axioms rejected_leaves_previous
+#print axioms accepted_replaces_completely
+#print axioms traffic_follows_last_accepted
+#print axioms facts_servePOST_order
+#print axioms facts_servePOST_parse_then_swap
+#print axioms facts_priority_insert_test
